@@ -1,6 +1,7 @@
 package engine
 
 import (
+	"go/token"
 	"golang.org/x/tools/go/ssa"
 )
 
@@ -73,24 +74,108 @@ type CountCfg struct {
 	BranchEvent func(call *ssa.Call) (onTrue, onFalse CountSet, ok bool)
 	// Stop: the walk ends (and reports) at instructions satisfying Stop; Returns always end it.
 	Stop func(in ssa.Instruction) bool
+	// Deep: a call of a same-package helper (static, with body) that is neither an event nor a
+	// branch event contributes the counts of its own paths (summarised, depth-bounded).
+	Deep  bool
+	depth int
 }
 
 type CountStop struct {
 	At    ssa.Instruction
 	Count CountSet
+	// For a Return whose boolean result is a branch-event call made on the spot
+	// (`return helper()`): counts when that result is true / false.
+	OnTrue, OnFalse CountSet
+	Unsplit         bool // some way of reaching this return could not be attributed to a truth value
+}
+
+// helperCounts: the counts contributed by running g from entry to any normal return.
+func helperCounts(g *ssa.Function, cfg CountCfg) CountSet {
+	if cfg.depth > 3 || g == nil || len(g.Blocks) == 0 {
+		return C0
+	}
+	inner := cfg
+	inner.Stop = nil
+	inner.depth = cfg.depth + 1
+	var out CountSet
+	for _, s := range CountFrom(g.Blocks[0], C0, inner) {
+		if _, ok := s.At.(*ssa.Return); ok {
+			out |= s.Count
+		}
+	}
+	if out == 0 {
+		return C0
+	}
+	return out
 }
 
 // CountFrom propagates counts from the start of block `start` (entered with
 // count set `init`) to every stop/return instruction and returns the count
 // sets observed there.
+//
+// Counts are kept per incoming edge.  Where a block's branch condition or
+// boolean return value is a phi of that block (a flag assembled on the way in:
+// `ok := ...; if !ok`), each incoming edge is continued separately with the
+// phi resolved to that edge's value, so a constant flag keeps its correlation
+// with the count of the path that set it.
 func CountFrom(start *ssa.BasicBlock, init CountSet, cfg CountCfg) []CountStop {
-	in := map[*ssa.BasicBlock]CountSet{start: init}
+	inE := map[*ssa.BasicBlock]map[int]CountSet{start: {-1: init}}
 	stops := map[ssa.Instruction]CountSet{}
-	work := []*ssa.BasicBlock{start}
+	splitT := map[ssa.Instruction]CountSet{}
+	splitF := map[ssa.Instruction]CountSet{}
+	unsplit := map[ssa.Instruction]bool{}
+	type item struct {
+		b    *ssa.BasicBlock
+		edge int
+	}
+	work := []item{{start, -1}}
+	push := func(from, to *ssa.BasicBlock, v CountSet) {
+		if v == 0 {
+			return
+		}
+		for i, p := range to.Preds {
+			if p != from {
+				continue
+			}
+			if inE[to] == nil {
+				inE[to] = map[int]CountSet{}
+			}
+			if inE[to][i]|v != inE[to][i] {
+				inE[to][i] |= v
+				work = append(work, item{to, i})
+			}
+		}
+	}
+	// phiEdge: v (through NOT) is a phi of block b: returns the edge value with polarity applied
+	phiEdge := func(b *ssa.BasicBlock, v ssa.Value, edge int) (val bool, known bool, isPhi bool) {
+		pol := true
+		for {
+			u, ok := v.(*ssa.UnOp)
+			if !ok || u.Op != token.NOT {
+				break
+			}
+			v, pol = u.X, !pol
+		}
+		ph, ok := v.(*ssa.Phi)
+		if !ok || ph.Block() != b {
+			return false, false, false
+		}
+		if edge < 0 || edge >= len(ph.Edges) {
+			return false, false, true
+		}
+		if c, ok := ConstBool(ph.Edges[edge]); ok {
+			return c == pol, true, true
+		}
+		return false, false, true
+	}
 	for len(work) > 0 {
-		b := work[0]
+		it := work[0]
 		work = work[1:]
-		cur := in[b]
+		b := it.b
+		cur := inE[b][it.edge]
+		if cur == 0 {
+			continue
+		}
 		stopped := false
 		for _, instr := range b.Instrs {
 			if cfg.Stop != nil && cfg.Stop(instr) {
@@ -98,7 +183,30 @@ func CountFrom(start *ssa.BasicBlock, init CountSet, cfg CountCfg) []CountStop {
 				stopped = true
 				break
 			}
-			if _, ok := instr.(*ssa.Return); ok {
+			if ret, ok := instr.(*ssa.Return); ok {
+				if len(ret.Results) > 0 {
+					rv := ReturnValue(ret, 0)
+					if cfg.BranchEvent != nil {
+						if call, ok := rv.(*ssa.Call); ok && call.Block() == b && usedOnlyAsBranch(call) {
+							if t, f, ok := cfg.BranchEvent(call); ok {
+								stops[instr] |= cur.add(t) | cur.add(f)
+								splitT[instr] |= cur.add(t)
+								splitF[instr] |= cur.add(f)
+								stopped = true
+								break
+							}
+						}
+					}
+					if val, known, isPhi := phiEdge(b, rv, it.edge); isPhi && known {
+						if val {
+							splitT[instr] |= cur
+						} else {
+							splitF[instr] |= cur
+						}
+					} else if isPhi {
+						unsplit[instr] = true
+					}
+				}
 				stops[instr] |= cur
 				stopped = true
 				break
@@ -116,38 +224,50 @@ func CountFrom(start *ssa.BasicBlock, init CountSet, cfg CountCfg) []CountStop {
 			if cfg.Event != nil {
 				if e := cfg.Event(instr); e != 0 {
 					cur = cur.add(e)
+					continue
+				}
+			}
+			if cfg.Deep {
+				if sc := moduleCallee(instr); sc != nil && FuncPkgPath(sc) == FuncPkgPath(start.Parent()) {
+					if e := helperCounts(sc, cfg); e != C0 {
+						cur = cur.add(e)
+					}
 				}
 			}
 		}
 		if stopped {
 			continue
 		}
-		push := func(s *ssa.BasicBlock, v CountSet) {
-			if in[s]|v != in[s] {
-				in[s] |= v
-				work = append(work, s)
-			}
-		}
-		if ifi, ok := b.Instrs[len(b.Instrs)-1].(*ssa.If); ok && cfg.BranchEvent != nil {
-			conds := flatten(Cond{ifi.Cond, true, ifi})
-			if call, ok := conds[0].V.(*ssa.Call); ok && call.Block() == b {
-				if t, f, ok := cfg.BranchEvent(call); ok && usedOnlyAsBranch(call) {
-					if !conds[0].Pol {
-						t, f = f, t
+		if ifi, ok := b.Instrs[len(b.Instrs)-1].(*ssa.If); ok {
+			if cfg.BranchEvent != nil {
+				conds := flatten(Cond{V: ifi.Cond, Pol: true, If: ifi})
+				if call, ok := conds[0].V.(*ssa.Call); ok && call.Block() == b {
+					if t, f, ok := cfg.BranchEvent(call); ok && usedOnlyAsBranch(call) {
+						if !conds[0].Pol {
+							t, f = f, t
+						}
+						push(b, b.Succs[0], cur.add(t))
+						push(b, b.Succs[1], cur.add(f))
+						continue
 					}
-					push(b.Succs[0], cur.add(t))
-					push(b.Succs[1], cur.add(f))
-					continue
 				}
+			}
+			if val, known, isPhi := phiEdge(b, ifi.Cond, it.edge); isPhi && known {
+				if val {
+					push(b, b.Succs[0], cur)
+				} else {
+					push(b, b.Succs[1], cur)
+				}
+				continue
 			}
 		}
 		for _, s := range b.Succs {
-			push(s, cur)
+			push(b, s, cur)
 		}
 	}
 	var out []CountStop
 	for at, c := range stops {
-		out = append(out, CountStop{at, c})
+		out = append(out, CountStop{At: at, Count: c, OnTrue: splitT[at], OnFalse: splitF[at], Unsplit: unsplit[at]})
 	}
 	return out
 }
@@ -160,6 +280,7 @@ func usedOnlyAsBranch(call *ssa.Call) bool {
 	for _, r := range *refs {
 		switch x := r.(type) {
 		case *ssa.If:
+		case *ssa.Return:
 		case *ssa.UnOp:
 			for _, rr := range *x.Referrers() {
 				if _, ok := rr.(*ssa.If); !ok {
@@ -189,6 +310,11 @@ func BoolHelperSummary(f *ssa.Function, cfg CountCfg) (onTrue, onFalse CountSet,
 		}
 		b, isConst := ConstBool(ReturnValue(r, 0))
 		if !isConst {
+			if (s.OnTrue != 0 || s.OnFalse != 0) && !s.Unsplit {
+				onTrue |= s.OnTrue
+				onFalse |= s.OnFalse
+				continue
+			}
 			return 0, 0, false
 		}
 		if b {
